@@ -286,7 +286,7 @@ func (c *Ctx) judgeSuccess(h *History, o *Obs, g *GenSpec, add func(o *Obs, clas
 	return nil
 }
 
-var faultKinds = []string{"err", "create-then-err", "short", "partial-mkdir", "crash-before", "crash-after", "crash-torn"}
+var faultKinds = []string{"err", "create-then-err", "short", "partial-mkdir", "write-enospc", "crash-before", "crash-after", "crash-torn"}
 var stages = []string{"directive", "methoddirective", "signature", "conversion", "marker", "load"}
 
 // C17Cases builds the fault enumeration for one layout spec.
@@ -349,8 +349,15 @@ func C17Cases(c *Ctx, rng *rand.Rand, spec *LSpec, withDisk bool, nArgv int) ([]
 				if calls[k].Op == "MkdirAll" && (kind == "create-then-err" || kind == "short" || kind == "crash-torn") {
 					continue
 				}
-				if calls[k].Op == "WriteFile" && kind == "partial-mkdir" {
+				if calls[k].Op != "MkdirAll" && kind == "partial-mkdir" {
 					continue
+				}
+				isOpen := calls[k].Op == "OpenFile" || calls[k].Op == "Create" || calls[k].Op == "CreateTemp"
+				if kind == "write-enospc" && !isOpen {
+					continue
+				}
+				if isOpen && (kind == "create-then-err" || kind == "short") {
+					continue // same model as write-enospc for handles
 				}
 				f := verifsim.Fault{Call: k, Kind: kind, Err: []string{"ENOSPC", "EACCES", "EIO", "EROFS"}[rng.IntN(4)]}
 				if kind == "short" || kind == "crash-torn" {
